@@ -74,13 +74,7 @@ class Cli(rpyc.Service):
 
 
 def gen_facts():
-    import re
-    try:
-        txt = open(C.COQ + "/gen/Gen_dispatch.v").read()
-        f = dict(re.findall(r"Definition (\w+) : bool := (true|false)\.", txt))
-        return [f.get(k) == "true" for k in ("unpack_in_try", "unbox_in_try", "handler_in_try", "reply_encode_guarded", "exc_encode_guarded", "reraises_marked")]
-    except OSError:
-        return [True] * 6
+    return [C.gen_fact("dispatch", k) for k in ("unpack_in_try", "unbox_in_try", "handler_in_try", "reply_encode_guarded", "exc_encode_guarded", "reraises_marked")]
 
 
 class Bench:
@@ -337,16 +331,8 @@ class _Chan:
     def fileno(self): return -1
 
 
-_RG = []
-
-
 def RESP_GUARDED():
-    if not _RG:
-        try:
-            _RG.append("response_decode_guarded : bool := true" in open(C.COQ + "/gen/Gen_dispatch.v").read())
-        except OSError:
-            _RG.append(True)
-    return _RG[0]
+    return C.gen_fact("dispatch", "response_decode_guarded")
 
 
 def real_requester(evs):
